@@ -105,14 +105,23 @@ usage:
 			if err != nil {
 				return nil, fmt.Errorf("arg: %w", err)
 			}
+			if i < 0 {
+				return nil, fmt.Errorf("arg: entries_per_node must not be negative: %s", s[1])
+			}
 			table.S3Options.EntriesPerNode = int(i)
 		case "node_cache_entries":
-			i, err := strconv.ParseInt(s[1], 32, 0)
+			i, err := strconv.ParseInt(s[1], 0, 32)
 			if err != nil {
 				return nil, fmt.Errorf("arg: %w", err)
 			}
+			if i < 0 {
+				return nil, fmt.Errorf("arg: node_cache_entries must not be negative: %s", s[1])
+			}
 			table.S3Options.NodeCacheEntries = int(i)
 		case "readonly":
+			if len(s) > 1 {
+				return nil, fmt.Errorf("readonly takes no value")
+			}
 			table.S3Options.ReadOnly = true
 		case "s3_bucket":
 			table.S3Options.Bucket = internal.UnquoteAll(s[1])
